@@ -22,13 +22,19 @@
 (* sels[s] is the key the s-th selector picks from the object every value is *)
 (* (0: the whole value, `$`); two selectors with the same key select the     *)
 (* same subtree of the value -- in the specification two separate roots.     *)
+(* paths[f] is the path given as the f-th file argument (numbered by first   *)
+(* occurrence).  A command line may name the same path several times: the    *)
+(* schedule has one file per ARGUMENT, so every occurrence is processed in   *)
+(* full, in its place, with the content the path names (families "inputs"    *)
+(* and "sim": RepeatFile).                                                   *)
 EXTENDS JqDriver
 
 CONSTANTS Fam, Alpha, MaxRules, MaxFiles, MaxVals, MaxArr, InputSel, NSel
 
 VARIABLES nsel, cstage,     \* number of selectors; "rules" | "input": what the configuration phase may still add
-          sels              \* per selector the key it picks (0: the whole value)
-vars == <<dvars, nsel, cstage, sels>>
+          sels,             \* per selector the key it picks (0: the whole value)
+          paths             \* per file argument the path it names
+vars == <<dvars, nsel, cstage, sels, paths>>
 
 \* ---- rules
 RW(k, p, b, w) == [kind |-> k, haspat |-> p # "none", pat |-> p, body |-> b, w |-> w]
@@ -124,9 +130,14 @@ Values(ns) ==
         /\ \A t \in 1..Len(sels) : sels[s] = sels[t] => val[s] = val[t]}
 
 \* ---- the configuration phase
+NPaths == IF paths = <<>> THEN 0 ELSE SetMax({paths[f] : f \in 1..Len(paths)})
+\* the content of a path is built while it is the last argument and was not named before
+LastPathFresh == \A g \in 1..(Len(paths) - 1) : paths[g] # paths[Len(paths)]
+
 Init ==
   /\ Idle
   /\ cstage = "rules"
+  /\ paths = <<>>
   /\ IF Fam \in {"rules", "cells"} THEN nsel = 0 /\ sels = <<>>
      ELSE nsel \in NSel /\ sels \in SelLists(nsel)
 
@@ -137,33 +148,43 @@ SetCfg(rs, fs, st) ==
 AddRule ==
   /\ phase = "config" /\ cstage = "rules" /\ Fam \in {"rules", "sim", "cells"} /\ Len(rules) < MaxRules
   /\ \E r \in Alphabet : CanFollow(rules, r) /\ SetCfg(Append(rules, r), files, "rules")
-  /\ UNCHANGED <<nsel, sels>>
+  /\ UNCHANGED <<nsel, sels, paths>>
 PickRules ==
   /\ phase = "config" /\ cstage = "rules" /\ Fam = "inputs" /\ rules = <<>>
   /\ \E rs \in RuleLists : SetCfg(rs, files, "input")
-  /\ UNCHANGED <<nsel, sels>>
+  /\ UNCHANGED <<nsel, sels, paths>>
 PickInput ==
   /\ phase = "config" /\ Fam = "rules" /\ files = <<>> /\ cstage = "rules"
   /\ \E i \in InputSel : SetCfg(rules, Inputs[i].files, "input") /\ nsel' = Inputs[i].nsel
                           /\ sels' = [s \in 1..Inputs[i].nsel |-> s]
+                          /\ paths' = [f \in 1..Len(Inputs[i].files) |-> f]
 PickCellInput ==
   /\ phase = "config" /\ Fam = "cells" /\ files = <<>> /\ cstage = "rules"
   /\ \E i \in InputSel : SetCfg(rules, CellInputs[i].files, "input") /\ nsel' = Len(CellInputs[i].sels)
                           /\ sels' = CellInputs[i].sels
+                          /\ paths' = [f \in 1..Len(CellInputs[i].files) |-> f]
 AddFile ==
   /\ phase = "config" /\ Fam \in {"inputs", "sim"} /\ Len(files) < MaxFiles
   /\ (Fam = "inputs") => cstage = "input"
   /\ SetCfg(rules, Append(files, <<>>), "input")
+  /\ paths' = Append(paths, NPaths + 1)
+  /\ UNCHANGED <<nsel, sels>>
+\* the next file argument names a path that was given before: the same content once more
+RepeatFile ==
+  /\ phase = "config" /\ cstage = "input" /\ Fam \in {"inputs", "sim"} /\ Len(files) < MaxFiles
+  /\ \E g \in 1..Len(files) :
+        /\ SetCfg(rules, Append(files, files[g]), "input")
+        /\ paths' = Append(paths, paths[g])
   /\ UNCHANGED <<nsel, sels>>
 AddValue ==
   /\ phase = "config" /\ cstage = "input" /\ Fam \in {"inputs", "sim"}
-  /\ Len(files) > 0 /\ Len(files[Len(files)]) < MaxVals
+  /\ Len(files) > 0 /\ Len(files[Len(files)]) < MaxVals /\ LastPathFresh
   /\ \E val \in Values(nsel) :
         SetCfg(rules, [files EXCEPT ![Len(files)] = Append(@, val)], "input")
-  /\ UNCHANGED <<nsel, sels>>
+  /\ UNCHANGED <<nsel, sels, paths>>
 AddElem ==
   /\ phase = "config" /\ cstage = "input" /\ Fam = "sim"
-  /\ Len(files) > 0 /\ Len(files[Len(files)]) > 0
+  /\ Len(files) > 0 /\ Len(files[Len(files)]) > 0 /\ LastPathFresh
   /\ LET f == Len(files) v == Len(files[f]) IN
      \E s \in 1..Len(files[f][v]) : \E k \in ElemKinds :
         /\ files[f][v][s].a /\ files[f][v][s].n < MaxArr
@@ -171,13 +192,13 @@ AddElem ==
         /\ SetCfg(rules, [files EXCEPT ![f][v] = [t \in 1..Len(@) |->
                              IF t = s \/ (t <= Len(sels) /\ s <= Len(sels) /\ sels[t] = sels[s]) THEN A(Append(@[t].es, k)) ELSE @[t]]],
                   "input")
-  /\ UNCHANGED <<nsel, sels>>
+  /\ UNCHANGED <<nsel, sels, paths>>
 Start ==
   /\ phase = "config"
   /\ (Fam = "inputs") => rules # <<>>
   /\ (Fam \in {"rules", "cells"}) => cstage = "input"
   /\ Load(rules, files)
-  /\ UNCHANGED <<nsel, sels>> /\ cstage' = "run"
+  /\ UNCHANGED <<nsel, sels, paths>> /\ cstage' = "run"
 
 \* ---- the run: outcomes supplied from the configuration
 CurRule == rules[part[CurKind][ri]]
@@ -207,8 +228,8 @@ Run ==
 Terminated == Fam # "sim" /\ phase = "done" /\ UNCHANGED vars
 
 Next ==
-  \/ (AddRule \/ PickRules \/ PickInput \/ PickCellInput \/ AddFile \/ AddValue \/ AddElem \/ Start)
-  \/ (Run /\ UNCHANGED <<nsel, cstage, sels>>)
+  \/ (AddRule \/ PickRules \/ PickInput \/ PickCellInput \/ AddFile \/ RepeatFile \/ AddValue \/ AddElem \/ Start)
+  \/ (Run /\ UNCHANGED <<nsel, cstage, sels, paths>>)
   \/ Terminated
 
 Spec == Init /\ [][Next]_vars
@@ -322,6 +343,30 @@ ShapeLaw ==
           /\ sels[s] = 0 => files[f][v][s] = S("o0")
           /\ \A t \in 1..nsel : sels[s] = sels[t] => files[f][v][s] = files[f][v][t]
 
+\* ---- file arguments and paths: one path per argument, numbered by first occurrence; the same path is the same content
+PathLaw ==
+  /\ Len(paths) = Len(files)
+  /\ \A f \in 1..Len(paths) :
+        /\ paths[f] \in 1..f
+        /\ (f = 1 \/ paths[f] <= SetMax({paths[g] : g \in 1..(f - 1)} \cup {0}) + 1)
+        /\ \A g \in 1..Len(paths) : paths[f] = paths[g] => files[f] = files[g]
+\* every occurrence of a path is a file of its own in the schedule: in a run that is not cut short by exit, what
+\* happens for the g-th argument is what happens for an earlier argument f naming the same path, shifted to g
+\* (activations, bindings, writes seen), and $file is bound to the argument's position (which names the path)
+ActsOfFile(f) == SelectSeq(obs, LAMBDA a : a.pos[1] = 1 /\ a.pos[2] = f)
+Unplaced(a) == [t |-> a.t, k |-> a.k, r |-> a.r, b |-> a.b, sig |-> a.sig, dt |-> a.d.t, dv |-> a.d.v, ds |-> a.d.s, de |-> a.d.e,
+                x |-> (IF a.d.t = "elem" THEN a.x ELSE -1),     \* $index outside an array round is left open
+                pos |-> SubSeq(a.pos, 3, 8), w |-> a.w, cw |-> a.cw, ews |-> a.ews, fw |-> a.fw, en |-> a.en, dopen |-> a.dopen]
+OccurrenceLaw ==
+  (ObsKeep = 0 /\ phase = "done" /\ ~Exited) =>
+    \A f \in 1..Len(paths) : \A g \in (f + 1)..Len(paths) :
+      paths[f] = paths[g] =>
+        LET qa == ActsOfFile(f) qb == ActsOfFile(g) IN
+        /\ Len(qa) = Len(qb)
+        /\ \A k \in 1..Len(qa) :
+              /\ Unplaced(qa[k]) = Unplaced(qb[k])
+              /\ qa[k].fb = f /\ qb[k].fb = g /\ qa[k].d.f = f /\ qb[k].d.f = g
+
 \* ---- vector: configuration + body activations
 \* <<rule, dollar type, f, v, s, e, $index, $file, $ open, $file cell, tag and rule of the overlay of $,
 \*   then per element of an array root shown as a whole: tag, rule>>
@@ -331,7 +376,7 @@ Bodies == SelectSeq(obs, LAMBDA a : a.t = "body")
 Vec ==
   phase = "done" =>
     Emit([rules |-> [i \in 1..Len(rules) |-> <<rules[i].kind, rules[i].pat, rules[i].body, rules[i].w>>],
-          nsel |-> nsel, sels |-> sels,
+          nsel |-> nsel, sels |-> sels, paths |-> paths,
           files |-> [f \in 1..Len(files) |-> [v \in 1..Len(files[f]) |-> [s \in 1..Len(files[f][v]) |->
                        [a |-> files[f][v][s].a, es |-> files[f][v][s].es]]]],
           lines |-> [k \in 1..Len(Bodies) |->
